@@ -705,6 +705,22 @@ func (o *obs) acvCycle(b s2.Point, cand []s2.Point) {
 			}
 		}
 	}
+	// [S] law_occw_split on the implementation: (u,w] = (u,v] + (v,w] for u,v,w in CCW order
+	w01 := func(x, y s2.Point) int {
+		if s2.AngleContainsVertex(y, b, x) {
+			return 1
+		}
+		return 0
+	}
+	for i := 0; i < k; i++ {
+		for j := i + 1; j < k; j++ {
+			for l := j + 1; l < k; l++ {
+				if w01(vs[i], vs[l]) != w01(vs[i], vs[j])+w01(vs[j], vs[l]) {
+					c.Violate("OrderedCCW.split", "wedge (u,w] is not the disjoint union of (u,v] and (v,w] for u,v,w in CCW order", rep)
+				}
+			}
+		}
+	}
 	nm := newNamer()
 	tb := newTable(nm)
 	count := 0
